@@ -225,7 +225,39 @@ def add_env_faults(rng, b, files, vals):
                 s["io"] = [[rng.choice([0, 0, 1, 2, 3, 5, 8]), rng.choice([1, 1, 2, 3])]]
 
 
-def gen_history(rng, profile, faults=False, sweep=False, hostile=False, reuse=False):
+def damage_a_file(rng, plan, files):
+    """One byte of one DWARF section of one file reads differently (through
+    the file-layer seam; the file on disk is untouched).  Both the history and
+    its baselines see the same damaged file, so the comparison stays fair; what
+    this adds is executions in which libdw *fails half-way*."""
+    from . import elfsec
+    if not files:
+        return False
+    f = rng.choice(files)
+    secs, data = elfsec.sections(os.path.join(gen.REPO, "tests", f))
+    cands = [n for n in (".debug_info", ".debug_info", ".debug_abbrev", ".debug_abbrev", ".debug_str",
+                         ".debug_loc", ".debug_ranges", ".debug_aranges", ".symtab", ".debug_types")
+             if n in secs]
+    if not cands:
+        return False
+    off, size = secs[rng.choice(cands)]
+    npatch = rng.choice([1, 1, 1, 2])
+    patches = []
+    for _ in range(npatch):
+        o = off + rng.randrange(size)
+        k = rng.random()
+        if k < 0.5:
+            b = data[o] ^ (1 << rng.randrange(8))
+        elif k < 0.75:
+            b = rng.choice([0, 0xff, 0x7f, 0x80])
+        else:
+            b = rng.randrange(256)
+        patches.append([o, b])
+    plan["files"].append({"vpath": "/sim/0/" + f, "backing": "", "errno": 0, "patches": patches})
+    return True
+
+
+def gen_history(rng, profile, faults=False, sweep=False, hostile=False, reuse=False, damaged=False):
     """C12/C13/C14 histories share one shape; the flags pick the workload mix.
 
     faults  : inject environment faults (separate batch, oracle relaxed on the
@@ -241,7 +273,7 @@ def gen_history(rng, profile, faults=False, sweep=False, hostile=False, reuse=Fa
 
     if reuse and rng.random() < 0.6:
         return gen_reuse(rng, profile)
-    use_dw = rng.random() < (0.55 if not hostile else 0.3)
+    use_dw = rng.random() < (0.55 if not hostile else 0.3) or damaged
     files = pick_files(rng, rng.choice([1, 1, 2])) if use_dw else []
 
     # ---- values and inputs
@@ -331,6 +363,8 @@ def gen_history(rng, profile, faults=False, sweep=False, hostile=False, reuse=Fa
             text = rng.choice(["`[7]", "``[7]", "```[1]", "1 `[]", "1 2 ``[]", "`[1, 2]", "1 2 3 ```[]"])
         elif k < 0.7:
             text = gen.gen_hostile(rng)
+            if len(text) > 400 and profile != "C14":
+                text = text[:400]       # the long ones are C14's (plain build only)
         else:
             text, _ = choose_program(rng, [], False)
         decoys.append(b.prog(text, 2 if "\x00" in text else rng.choice([0, 1, 2])))
@@ -455,12 +489,16 @@ def gen_history(rng, profile, faults=False, sweep=False, hostile=False, reuse=Fa
 
     if faults:
         add_env_faults(rng, b, files, vals)
+    if damaged:
+        damage_a_file(rng, plan, files)
 
     # elfutils 0.188 leaks its 1 MiB decompression probe buffers when mmap
     # fails on a file that is not ELF; that is not dwgrep's to release, so
     # the combination is not generated (DESIGN.md 4.2).
     if any(f.get("backing") for f in plan["files"]):
         plan["knobs"]["deny_mmap"] = 0
+    if damaged:
+        plan["knobs"]["watchdog_s"] = 4
     scale_watchdog(plan)
 
     # ---- epilogue: every program once more, sequentially, in the laden process
